@@ -105,6 +105,7 @@ package keeper
 //@ requires [msg_present] msg != nil
 //@ requires [tipper_is_not_the_oracle_account] addrstr(msg.Tipper) != module("oracle")
 //@ requires [tipper_is_a_valid_address_checked_by_ValidateBasic] bech32ok(msg.Tipper)
+//@ requires [round_counter_below_2_64] oracle.QuerySequencer < 18446744073709551615
 //@ requires [windows_fit] forall q bytes :: forall i int :: blockheight(goCtx) + oracle.Query[pair(q, i)].RegistrySpecBlockWindow < 18446744073709551616
 //@ modifies G_*
 //@ ensures [only_the_signer_pays] forall a addr :: a != addrstr(msg.Tipper) && a != module("oracle") ==> bank.bal[a] == old(bank.bal[a])
